@@ -48,6 +48,9 @@ extern crate alloc;
 /// Low level implementation primitives.
 pub mod core;
 
+#[cfg(paseto_verif)]
+pub mod verif;
+
 pub use paseto_core::PasetoError;
 
 /// A token with publically readable data, but not yet verified
